@@ -127,7 +127,9 @@ class LT(object):
     def _inplace(self, r):
         if len(r._shape) != len(self._shape):
             raise RuntimeError("output with shape %s doesn't match the broadcast shape %s" % (self._shape, r._shape))
-        self.fn, self._shape = r.fn, r._shape
+        f = r.fn
+        self._shape = r._shape
+        self._store(f)
         return self
 
     def __iadd__(self, o): return self._inplace(self + o)
@@ -139,30 +141,274 @@ class LT(object):
     def __gt__(self, o): return self._bin(o, lambda x, y: x > y, kind="bool")
     def __ge__(self, o): return self._bin(o, lambda x, y: x >= y, kind="bool")
 
-    # ---- slicing along the last axis --------------------------------------------------------------------------------------
-    def __getitem__(self, idx):
-        if not isinstance(idx, tuple):
-            idx = (idx,)
-        if not (len(idx) == 2 and idx[0] is Ellipsis and isinstance(idx[1], slice)) and not (len(idx) == 1 and isinstance(idx[0], slice)
-                                                                                         and len(self._shape) == 1):
-            raise OutOfSubset("LAM index %r" % (idx,))
-        sl = idx[-1]
-        if sl.step not in (None, 1):
-            raise OutOfSubset("LAM strided slice")
-        n = _z(self._shape[-1])
+    # ---- powers, shape operations -----------------------------------------------------------------------------------------
+    def __pow__(self, p):
+        if not (isinstance(p, int) and p >= 1):
+            raise OutOfSubset("LAM power %r" % (p,))
+        r = self
+        for _ in range(p - 1):
+            r = r * self
+        return r
 
-        def norm(v, default):
-            if v is None:
-                return default
-            v = _z(v)
-            return z3.If(v < 0, v + n, v)
-        lo, hi = norm(sl.start, z3.IntVal(0)), norm(sl.stop, n)
-        newlen = hi - lo          # the harness keeps sizes large enough for this to be non-negative
+    def unsqueeze(self, dim):
+        f, n = self.fn, len(self._shape)
+        d = dim if dim >= 0 else dim + n + 1
+        return LT(self._shape[:d] + (1,) + self._shape[d:], lambda ix: f(tuple(ix[:d]) + tuple(ix[d + 1:])), self.kind)
+
+    def squeeze(self, dim=None):
+        n = len(self._shape)
+        if dim is None:
+            raise OutOfSubset("LAM squeeze without a dimension")
+        d = dim if dim >= 0 else dim + n
+        if not _is1(self._shape[d]):
+            if isinstance(self._shape[d], int):
+                return self
+            raise OutOfSubset("LAM squeeze of a dimension of symbolic size")
         f = self.fn
-        return LT(self._shape[:-1] + (newlen,), lambda ix: f(tuple(ix[:-1]) + (ix[-1] + lo,)), self.kind)
+        return LT(self._shape[:d] + self._shape[d + 1:], lambda ix: f(tuple(ix[:d]) + (z3.IntVal(0),) + tuple(ix[d:])), self.kind)
+
+    def reshape(self, *shape):
+        """only adding / removing leading dimensions of size one"""
+        if len(shape) == 1 and isinstance(shape[0], (tuple, list)):
+            shape = tuple(shape[0])
+        src = list(self._shape)
+        while src and _is1(src[0]):
+            src.pop(0)
+        tgt = list(shape)
+        lead = 0
+        while len(tgt) > len(src):
+            d = tgt.pop(0)
+            if not (_is1(d) or (isinstance(d, int) and d == -1)):
+                raise OutOfSubset("LAM reshape %s -> %s" % (self._shape, shape))
+            lead += 1
+        if len(tgt) != len(src):
+            raise OutOfSubset("LAM reshape %s -> %s" % (self._shape, shape))
+        for a, b in zip(src, tgt):
+            if isinstance(b, int) and b == -1:
+                continue
+            if not _same_dim(a, b):
+                raise OutOfSubset("LAM reshape %s -> %s" % (self._shape, shape))
+        f, drop = self.fn, len(self._shape) - len(src)
+        zeros = (z3.IntVal(0),) * drop
+        return LT((1,) * lead + tuple(src), lambda ix: f(zeros + tuple(ix[lead:])), self.kind)
+
+    def diagonal(self, offset=0, dim1=0, dim2=1):
+        n = len(self._shape)
+        if n < 2 or {dim1 % n, dim2 % n} != {n - 2, n - 1} or not isinstance(offset, int):
+            raise OutOfSubset("LAM diagonal(dim1=%r, dim2=%r)" % (dim1, dim2))
+        return LTDiag(self, offset)
+
+    # ---- indexing: views that read their base lazily and write through ----------------------------------------------------
+    def __getitem__(self, idx):
+        spec, vshape = _parse_index(self._shape, idx)
+        return LTView(self, spec, vshape, idx)
+
+    def __setitem__(self, idx, val):
+        if isinstance(val, LTView) and val._base is self and val._idx is idx:
+            return          # a[idx] += v: the view already wrote through
+        spec, vshape = _parse_index(self._shape, idx)
+        self._assign(spec, vshape, val)
+
+    def _assign(self, spec, vshape, val):
+        if not isinstance(val, LT):
+            c_ = _num(val)
+            val = LT((), lambda ix: c_, "int" if z3.is_int(c_) else "real")
+        valb = _broadcast_to(val, vshape)
+        vf = valb.fn          # a snapshot (views compute it from the present state of their base)
+        old = self.fn
+
+        def new(ix):
+            conds, vix = [], []
+            for k, sp in enumerate(spec):
+                if sp[0] == "fix":
+                    conds.append(ix[k] == sp[1])
+                else:
+                    _, lo, st, ln = sp
+                    conds.append(ix[k] >= lo)
+                    conds.append(ix[k] < lo + st * ln)
+                    if st != 1:
+                        conds.append((ix[k] - lo) % st == 0)
+                        vix.append((ix[k] - lo) / st)
+                    else:
+                        vix.append(ix[k] - lo)
+            v = vf(tuple(vix))
+            o = old(ix)
+            if z3.is_int(v) != z3.is_int(o):
+                v = z3.ToReal(v) if z3.is_int(v) else v
+                o = z3.ToReal(o) if z3.is_int(o) else o
+            return z3.If(z3.And(*conds), v, o) if conds else v
+        self._store(new)
+
+    def _store(self, new):
+        self.fn = new
+        self._ver = getattr(self, "_ver", 0) + 1
 
     def __repr__(self):
         return "LT(%s, %s)" % (self._shape, self.kind)
+
+
+class LTView(LT):
+    """basic indexing: reads the present state of the base, in-place operations write through"""
+
+    def __init__(self, base, spec, vshape, idx):
+        self._base, self._spec, self._idx = base, spec, idx
+        self._shape = tuple(_dim(d) for d in vshape)
+        self.kind, self.dtype, self.device, self.requires_grad = base.kind, base.dtype, base.device, False
+
+    @property
+    def fn(self):
+        b, spec = self._base.fn, self._spec
+
+        def f(ix):
+            full, k = [], 0
+            for sp in spec:
+                if sp[0] == "fix":
+                    full.append(sp[1])
+                else:
+                    full.append(sp[1] + sp[2] * ix[k] if sp[2] != 1 else sp[1] + ix[k])
+                    k += 1
+            return b(tuple(full))
+        return f
+
+    def _inplace(self, r):
+        self._base._assign(self._spec, self._shape, r)
+        return self
+
+    def _assign(self, spec, vshape, val):
+        tmp = LT(self._shape, self.fn, self.kind)
+        tmp._assign(spec, vshape, val)
+        self._base._assign(self._spec, self._shape, tmp)
+
+    def _store(self, new):
+        raise OutOfSubset("LAM: direct store into a view")
+
+
+class LTDiag(LT):
+    """view of a diagonal of the last two axes (writes through)"""
+
+    def __init__(self, base, offset):
+        self._base, self._off = base, offset
+        n = _z(base._shape[-1])
+        self._shape = tuple(base._shape[:-2]) + (_dim(n - abs(offset)),)
+        self.kind, self.dtype, self.device, self.requires_grad = base.kind, base.dtype, base.device, False
+
+    @property
+    def fn(self):
+        b, ro, co = self._base.fn, max(-self._off, 0), max(self._off, 0)
+        return lambda ix: b(tuple(ix[:-1]) + (ix[-1] + ro, ix[-1] + co))
+
+    def _inplace(self, r):
+        self._write(_broadcast_to(r, self._shape))
+        return self
+
+    def _assign(self, spec, vshape, val):
+        tmp = LT(self._shape, self.fn, self.kind)
+        tmp._assign(spec, vshape, val)
+        self._write(tmp)
+
+    def _write(self, content):
+        cf, old, off, ro = content.fn, self._base.fn, self._off, max(-self._off, 0)
+        n = _z(self._base._shape[-1])
+
+        def new(ix):
+            r, c_ = ix[-2], ix[-1]
+            return z3.If(z3.And(c_ - r == off, r >= 0, c_ >= 0, r < n, c_ < n), cf(tuple(ix[:-2]) + (r - ro,)), old(ix))
+        self._base._store(new)
+
+
+def _same_dim(a, b):
+    ea, eb = z3.simplify(_z(a)), z3.simplify(_z(b))
+    return z3.eq(ea, eb) or not ctx().feasible(ea != eb)
+
+
+def _min2(a, b):
+    """min(a, b) simplified under the path condition"""
+    a, b = z3.simplify(a), z3.simplify(b)
+    if z3.eq(a, b):
+        return a
+    c = ctx()
+    if not c.feasible(a > b):
+        return a
+    if not c.feasible(a < b):
+        return b
+    return z3.If(a <= b, a, b)
+
+
+def _max2(a, b):
+    a, b = z3.simplify(a), z3.simplify(b)
+    if z3.eq(a, b):
+        return a
+    c = ctx()
+    if not c.feasible(a < b):
+        return a
+    if not c.feasible(a > b):
+        return b
+    return z3.If(a >= b, a, b)
+
+
+def _bound(v, n, default):
+    """a slice bound normalised as Python does: negative counts from the end, clipped to [0, n]"""
+    if v is None:
+        return default
+    if isinstance(v, int) and not isinstance(v, bool):
+        return _min2(z3.IntVal(v), n) if v >= 0 else _max2(n + v, z3.IntVal(0))
+    v = _z(v)
+    c = ctx()
+    if not c.feasible(v < 0):
+        return _min2(v, n)
+    if not c.feasible(v >= 0):
+        return _max2(v + n, z3.IntVal(0))
+    return z3.If(v < 0, _max2(v + n, z3.IntVal(0)), _min2(v, n))
+
+
+def _parse_index(shape, idx):
+    if not isinstance(idx, tuple):
+        idx = (idx,)
+    nd = len(shape)
+    items = list(idx)
+    if any(it is Ellipsis for it in items):
+        k = [i for i, it in enumerate(items) if it is Ellipsis]
+        if len(k) > 1:
+            raise IndexError("an index can only have a single ellipsis")
+        k = k[0]
+        fill = nd - (len(items) - 1)
+        if fill < 0:
+            raise IndexError("too many indices for tensor of dimension %d" % nd)
+        items = items[:k] + [slice(None)] * fill + items[k + 1:]
+    if len(items) > nd:
+        raise IndexError("too many indices for tensor of dimension %d" % nd)
+    items = items + [slice(None)] * (nd - len(items))
+    spec, vshape = [], []
+    for it, d in zip(items, shape):
+        n = _z(d)
+        if isinstance(it, slice):
+            st = it.step if it.step is not None else 1
+            if not (isinstance(st, int) and st >= 1):
+                raise OutOfSubset("LAM slice step %r" % (it.step,))
+            lo = _bound(it.start, n, z3.IntVal(0))
+            hi = _bound(it.stop, n, n)
+            ln = _max2((hi - lo + (st - 1)) / st if st != 1 else hi - lo, z3.IntVal(0))
+            ln = z3.simplify(ln)
+            spec.append(("sl", z3.simplify(lo), st, ln))
+            vshape.append(ln)
+        elif isinstance(it, (int, SInt)) and not isinstance(it, bool):
+            a = _z(it)
+            c = ctx()
+            if isinstance(it, int):
+                if isinstance(d, int) and not (-d <= it < d):
+                    raise IndexError("index %d is out of bounds for dimension with size %d" % (it, d))
+                a = z3.IntVal(it) if it >= 0 else z3.simplify(n + it)
+                if c.feasible(z3.Or(a < 0, a >= n)):
+                    raise OutOfSubset("LAM: index %d may be out of bounds for a dimension of size %s" % (it, d))
+            else:
+                if c.feasible(z3.Or(a < -n, a >= n)):
+                    raise OutOfSubset("LAM: symbolic index may be out of bounds")
+                if c.feasible(a < 0):
+                    a = z3.If(a < 0, a + n, a)
+            spec.append(("fix", a))
+        else:
+            raise OutOfSubset("LAM index %r" % (type(it).__name__,))
+    return spec, tuple(vshape)
 
 
 def _bshape(s1, s2):
@@ -281,9 +527,578 @@ def gather(t, dim, index):
     return LT(index._shape, lambda idx: f(tuple(idx[:-1]) + (g(idx),)), t.kind)
 
 
+# ---- constructors ----------------------------------------------------------------------------------------------------------
+def zeros(*shape, dtype=None, device=None):
+    if len(shape) == 1 and isinstance(shape[0], (tuple, list)):
+        shape = tuple(shape[0])
+    z = z3.RealVal(0)
+    t = LT(tuple(shape), lambda ix: z, "real")
+    return t
+
+
+def zeros_like(t, **kw):
+    z = z3.RealVal(0)
+    return LT(t._shape, lambda ix: z, "real")
+
+
+def tensor(data, dtype=None, device=None):
+    if isinstance(data, (int, float)):
+        v = _num(data)
+        return LT((), lambda ix: v, "real")
+    vals = [_num(float(v)) for v in data]
+
+    def f(ix):
+        e = vals[-1]
+        for k in range(len(vals) - 2, -1, -1):
+            e = z3.If(ix[-1] == k, vals[k], e)
+        return e
+    return LT((len(vals),), f, "real")
+
+
+def cat(ts, dim=-1):
+    ts = list(ts)
+    nd = len(ts[0]._shape)
+    if dim not in (-1, nd - 1) or any(len(t._shape) != nd for t in ts):
+        raise OutOfSubset("LAM cat along another axis")
+    fs = [t.fn for t in ts]
+    lens = [_z(t._shape[-1]) for t in ts]
+    offs, acc = [], z3.IntVal(0)
+    for ln in lens:
+        offs.append(acc)
+        acc = z3.simplify(acc + ln)
+
+    def f(ix):
+        lead, j = tuple(ix[:-1]), ix[-1]
+        e = fs[-1](lead + (j - offs[-1],))
+        for k in range(len(fs) - 2, -1, -1):
+            e = z3.If(j < offs[k + 1], fs[k](lead + (j - offs[k],)), e)
+        return e
+    return LT(tuple(ts[0]._shape[:-1]) + (acc,), f, ts[0].kind)
+
+
+# ---- reductions over an axis of symbolic length: an uninterpreted result plus a record of the summand -------------------------
+def _new_sum(out_shape, summand, n, what):
+    c = ctx()
+    recs = c.ghost.setdefault("lam_sums", [])
+    k = len(recs)
+    # the same reduction computed twice is the same value: reuse its function
+    gix = tuple(z3.Int("gsum%d" % j) for j in range(len(out_shape)))
+    gcc = z3.Int("gsumc")
+    mine = z3.simplify(summand(gix, gcc))
+    for rec in recs:
+        if len(rec["out_shape"]) == len(out_shape) and _same_dim(rec["n"], n) and z3.eq(z3.simplify(rec["summand"](gix, gcc)), mine):
+            F = rec["f"]
+            return LT(tuple(out_shape), lambda ix: F(*ix), "real")
+    F = z3.Function("%s%d" % (what, k), *([z3.IntSort()] * len(out_shape) + [z3.RealSort()]))
+    recs.append(dict(f=F, summand=summand, n=_z(n), out_shape=tuple(out_shape), what=what))
+    return LT(tuple(out_shape), lambda ix: F(*ix), "real")
+
+
+def sum_(t, dim=None, keepdim=False):
+    nd = len(t._shape)
+    if dim not in (-1, nd - 1) or keepdim:
+        raise OutOfSubset("LAM sum over another axis")
+    f = t.fn
+    return _new_sum(t._shape[:-1], lambda ix, cc: f(tuple(ix) + (cc,)), t._shape[-1], "sum")
+
+
+def matmul(a, b):
+    if len(a._shape) != 2 or len(b._shape) < 2:
+        raise OutOfSubset("LAM matmul of shapes %s, %s" % (a._shape, b._shape))
+    if not _same_dim(a._shape[-1], b._shape[-2]):
+        raise RuntimeError("mat1 and mat2 shapes cannot be multiplied (%s and %s)" % (a._shape, b._shape))
+    fa, fb = a.fn, b.fn
+    lead = tuple(b._shape[:-2])
+    nl = len(lead)
+    return _new_sum(lead + (a._shape[0], b._shape[-1]),
+                    lambda ix, cc: fa((ix[nl], cc)) * fb(tuple(ix[:nl]) + (cc, ix[nl + 1])), a._shape[-1], "mm")
+
+
+def einsum(eq, a, b):
+    if eq.replace(" ", "") != "c,...c->...":
+        raise OutOfSubset("LAM einsum %r" % (eq,))
+    if len(a._shape) != 1 or not _same_dim(a._shape[0], b._shape[-1]):
+        raise RuntimeError("einsum(): operands do not broadcast with remapped shapes")
+    fa, fb = a.fn, b.fn
+    return _new_sum(b._shape[:-1], lambda ix, cc: fa((cc,)) * fb(tuple(ix) + (cc,)), a._shape[0], "es")
+
+
+def solve(A, B):
+    """contract of torch.linalg.solve: the result R satisfies A R = B (torch raises for a singular A)"""
+    if len(A._shape) != 2 or len(B._shape) != 2:
+        raise OutOfSubset("LAM solve with batch dimensions")
+    c = ctx()
+    recs = c.ghost.setdefault("lam_solves", [])
+    R = z3.Function("solved%d" % len(recs), z3.IntSort(), z3.IntSort(), z3.RealSort())
+    recs.append(dict(A=A.fn, B=B.fn, R=R, n=_z(A._shape[-1])))
+    return LT(B._shape, lambda ix: R(*ix), "real")
+
+
+def sum_record_of(term):
+    """the record of the reduction whose result `term` is (an application of its function), or None"""
+    if not z3.is_app(term):
+        return None
+    for rec in ctx().ghost.get("lam_sums", []):
+        if term.decl().eq(rec["f"]):
+            return rec
+    return None
+
+
+def linear_summand(term, col):
+    """term is a linear combination (+, -, unary -, product with a reduction-free factor) of reduction results of one common
+    length: returns (summand at column `col`, length); by linearity of finite sums term = sum over col of that summand"""
+    ns = []
+
+    def has_sum(t):
+        if sum_record_of(t) is not None:
+            return True
+        return any(has_sum(ch) for ch in t.children())
+
+    def go(t):
+        rec = sum_record_of(t)
+        if rec is not None:
+            ns.append(rec["n"])
+            return rec["summand"](tuple(t.children()), col)
+        k = t.decl().kind() if z3.is_app(t) else None
+        if k == z3.Z3_OP_ADD:
+            return z3.Sum([go(ch) for ch in t.children()])
+        if k == z3.Z3_OP_SUB:
+            ch = t.children()
+            r = go(ch[0])
+            for x in ch[1:]:
+                r = r - go(x)
+            return r
+        if k == z3.Z3_OP_UMINUS:
+            return -go(t.children()[0])
+        if k == z3.Z3_OP_MUL:
+            ch = t.children()
+            withs = [x for x in ch if has_sum(x)]
+            if len(withs) == 1:
+                r = go(withs[0])
+                for x in ch:
+                    if x is not withs[0]:
+                        r = r * x
+                return r
+        if k == z3.Z3_OP_TO_REAL:
+            return go(t.children()[0])
+        raise OutOfSubset("LAM: the result is not a linear combination of reductions: %s" % str(t)[:120])
+    s = go(term)
+    for n in ns[1:]:
+        if not _same_dim(n, ns[0]):
+            raise OutOfSubset("LAM: reductions of different lengths combined")
+    return s, ns[0]
+
+
+def dedupe_sum(g, cands, n):
+    """sum of g over the distinct candidates that lie in [0, n)"""
+    tot = z3.RealVal(0)
+    for j, a in enumerate(cands):
+        first = z3.And(a >= 0, a < n, *[a != b for b in cands[:j]])
+        tot = tot + z3.If(first, g(a), z3.RealVal(0))
+    return tot
+
+
+def prove_sum_lemma(prove, k):
+    """sum_{c<n} f(c) = sum over the distinct a_j in [0,n) of f(a_j) when f vanishes off {a_1..a_k}: by induction on n.
+    S is the running sum (S(0) = 0, S(m+1) = S(m) + f(m)); the induction step is quantifier free."""
+    f = z3.Function("lemma_f", z3.IntSort(), z3.RealSort())
+    S = z3.Function("lemma_S", z3.IntSort(), z3.RealSort())
+    a = [z3.Int("lemma_a%d" % j) for j in range(k)]
+    m = z3.Int("lemma_m")
+    rhs = lambda n_: dedupe_sum(f, a, n_)
+    off_support = z3.Implies(z3.And(*[m != aj for aj in a]), f(m) == 0)       # the hypothesis, instantiated at m
+    base = prove("sum_lemma[%d support points]:base" % k, z3.Implies(S(0) == 0, S(0) == rhs(z3.IntVal(0))), [])
+    step = prove("sum_lemma[%d support points]:step" % k,
+                 z3.Implies(z3.And(m >= 0, S(m) == rhs(m), S(m + 1) == S(m) + f(m), off_support), S(m + 1) == rhs(m + 1)), [])
+    return base and step
+
+
+# ---- loops with a symbolic trip count: range() yields one generic iteration between two invariant checks ------------------------
+import builtins as _bi
+import sys as _sys
+
+
+class CutInfo(object):
+    pass
+
+
+def lam_range(*args):
+    if all(isinstance(a, int) for a in args):
+        return _bi.range(*args)
+    frame = _sys._getframe(1)
+    return _cut(frame, *args)
+
+
+def _first_use_is_store(frame, names, loop_line):
+    """names bound by the loop must not be read after it before being bound again (their value after the cut is arbitrary)"""
+    import ast, inspect, textwrap
+    try:
+        srcl, first = inspect.getsourcelines(frame.f_code)
+    except (OSError, TypeError):
+        raise OutOfSubset("LAM loop cut: source of %s not available" % frame.f_code.co_name)
+    tree = ast.parse(textwrap.dedent("".join(srcl)))
+    rel = loop_line - first + 1
+    loop = None
+    for node in ast.walk(tree):
+        if isinstance(node, ast.For) and node.lineno == rel:
+            loop = node
+    if loop is None:
+        raise OutOfSubset("LAM loop cut: no for statement at line %d" % loop_line)
+    for node in ast.walk(loop):
+        if isinstance(node, (ast.Break, ast.Return)):
+            raise OutOfSubset("LAM loop cut: break/return in the loop")
+    if loop.orelse:
+        raise OutOfSubset("LAM loop cut: for/else")
+    bound = {n.id for n in ast.walk(loop) if isinstance(n, ast.Name) and isinstance(n.ctx, ast.Store)}
+    after = sorted((n for n in ast.walk(tree) if isinstance(n, ast.Name) and n.id in bound
+                    and (n.lineno, n.col_offset) > (loop.end_lineno, loop.end_col_offset)), key=lambda n: (n.lineno, n.col_offset))
+    seen = set()
+    for n in after:
+        if n.id in seen:
+            continue
+        seen.add(n.id)
+        # in `for T in IT` and `T = expr` the store precedes the loads textually except for expr itself: check the statement
+        if not isinstance(n.ctx, ast.Store):
+            raise OutOfSubset("LAM loop cut: %r is read after the loop" % n.id)
+    return bound
+
+
+def _cut(frame, *args):
+    c = ctx()
+    if len(args) == 1:
+        lo, hi, st = 0, args[0], 1
+    elif len(args) == 2:
+        lo, hi, st = args[0], args[1], 1
+    else:
+        lo, hi, st = args
+    if not (isinstance(st, int) and st >= 1):
+        raise OutOfSubset("LAM loop cut: step %r" % (st,))
+    fname = frame.f_code.co_name
+    seen = c.ghost.setdefault("lam_cut_count", {})
+    ordk = seen.get(fname, 0)
+    seen[fname] = ordk + 1
+    spec = c.ghost.get("lam_invariants", {}).get((fname, ordk))
+    if spec is None:
+        raise OutOfSubset("LAM loop cut: no invariant for loop %d of %s" % (ordk, fname))
+    bound_names = _first_use_is_store(frame, (), frame.f_lineno)
+    loc = frame.f_locals
+    lo_e, hi_e = _z(lo), _z(hi)
+    trips = z3.If(hi_e > lo_e, (hi_e - lo_e + (st - 1)) / st, z3.IntVal(0))
+    exit_i = z3.simplify(lo_e + st * trips)
+    R, C = z3.Int("R"), z3.Int("C")
+    tensors = {}
+    for name in spec:
+        t = loc.get(name)
+        if not isinstance(t, LT) or isinstance(t, (LTView, LTDiag)) or len(t._shape) < 2:
+            raise OutOfSubset("LAM loop cut: %r is not a matrix in %s" % (name, fname))
+        tensors[name] = t
+    LB = lambda t: tuple(z3.Int("LB%d" % k) for k in range(len(t._shape) - 2))     # generic leading (batch) indices
+
+    def rng(t):
+        out = [R >= 0, R < _z(t._shape[-2]), C >= 0, C < _z(t._shape[-1])]
+        for b, d in zip(LB(t), t._shape[:-2]):
+            out += [b >= 0, b < _z(d)]
+        return out
+    lid = "%s.loop%d" % (fname, ordk)
+    prior = lambda: [fact(R + d, C) for fact in c.ghost.get("lam_facts", []) for d in (0, -1, -2)]
+    info = CutInfo()
+    info.lid, info.lo, info.hi, info.step, info.exit_i = lid, lo_e, hi_e, st, exit_i
+    c.ghost.setdefault("lam_cuts", []).append(info)
+    info.finished = False
+    # the generic iteration
+    i = z3.Int(c.fresh("i"))
+    entry = {name: t.fn for name, t in tensors.items()}
+    vers = {id(v): getattr(v, "_ver", 0) for v in loc.values() if isinstance(v, LT) and not isinstance(v, (LTView, LTDiag))}
+    objs = {id(v): (k, v) for k, v in loc.items() if isinstance(v, LT) and not isinstance(v, (LTView, LTDiag))}
+    pre = {}
+
+    def fresh_fn(base, t):
+        return z3.Function(c.fresh(base), *([z3.IntSort()] * len(t._shape) + [z3.RealSort()]))
+
+    def acc_fn(f, lead):            # accessor of the matrix entry (r, c) of a python function of the full index
+        return lambda r, cc: f(tuple(lead) + (_z(r), _z(cc)))
+
+    def acc_uf(F, lead):
+        return lambda r, cc: F(*(tuple(lead) + (_z(r), _z(cc))))
+    for name, t in tensors.items():
+        P = fresh_fn("pre_" + name, t)
+        pre[name] = P
+        t.fn = (lambda P_: (lambda ix: P_(*ix)))(P)
+    iter_facts = [i >= lo_e, i < hi_e, (i - lo_e) % st == 0] if st != 1 else [i >= lo_e, i < hi_e]
+    saved_pc = list(c.pc)
+    if c.feasible(z3.And(*iter_facts)):
+        for f_ in iter_facts:
+            c.assume(f_)
+        c.cover(lid + ".iteration")
+        yield SInt(i)
+        # --- after one execution of the body
+        for oid, (k, v) in objs.items():
+            if getattr(v, "_ver", 0) != vers[oid] and k not in tensors:
+                raise OutOfSubset("LAM loop cut: the body of %s modifies %r, which has no invariant" % (lid, k))
+        post = {name: t.fn for name, t in tensors.items()}
+
+        def make_delta(name):
+            # what iteration `it` adds to entry (lead, r, c): post - pre with the iteration variable replaced
+            t = tensors[name]
+            lead0 = LB(t)
+            r_, c_ = z3.Int("dr"), z3.Int("dc")
+            d0 = post[name](lead0 + (r_, c_)) - pre[name](*(lead0 + (r_, c_)))
+
+            def delta(it, r, cc, lead=None):
+                subs = [(i, _z(it)), (r_, _z(r)), (c_, _z(cc))]
+                if lead is not None:
+                    subs += [(a_, _z(b_)) for a_, b_ in zip(lead0, lead)]
+                return z3.substitute(d0, *subs)      # not simplified: the structure of the products is kept for congruence
+            return delta
+        deltas = {name: make_delta(name) for name in tensors}
+        info.deltas, info.i = deltas, i
+        for name, inv in spec.items():
+            t = tensors[name]
+            lead0 = LB(t)
+            E0 = acc_fn(entry[name], lead0)
+            hyp = inv(acc_uf(pre[name], lead0), E0, i, deltas[name], R, C)
+            goal = inv(acc_fn(post[name], lead0), E0, i + st, deltas[name], R, C)
+            _prove_from(c, "%s:invariant_is_preserved_by_an_arbitrary_iteration[%s]" % (lid, name), goal,
+                        saved_pc + iter_facts + rng(t) + [hyp] + prior())
+            _prove_from(c, "%s:invariant_holds_on_entry[%s]" % (lid, name), inv(E0, E0, lo_e, deltas[name], R, C), saved_pc + rng(t) + prior())
+        # --- the state after the loop: anything that satisfies the invariant at the exit index
+        c.pc = saved_pc
+        c.solver = z3.Solver()
+        c.solver.set("timeout", 10000)
+        for a_ in saved_pc:
+            c.solver.add(a_)
+        for name, inv in spec.items():
+            t = tensors[name]
+            Q = fresh_fn("post_" + name, t)
+            t.fn = (lambda Q_: (lambda ix: Q_(*ix)))(Q)
+            t._ver = getattr(t, "_ver", 0) + 1
+
+            def fact(r, cc, lead=None, inv_=inv, Q_=Q, t_=t, name_=name):
+                if isinstance(lead, str):       # "zeros": leading dimensions of size one
+                    lead = (0,) * (len(t_._shape) - 2)
+                ld = LB(t_) if lead is None else tuple(_z(b_) for b_ in lead)
+                d_ = deltas[name_]
+                dl = (lambda it, r2, c2: d_(it, r2, c2, ld))
+                guard = [_z(r) >= 0, _z(r) < _z(t_._shape[-2]), _z(cc) >= 0, _z(cc) < _z(t_._shape[-1])]
+                return z3.Implies(z3.And(*guard), inv_(acc_uf(Q_, ld), acc_fn(entry[name_], ld), exit_i, dl, _z(r), _z(cc)))
+            c.ghost.setdefault("lam_facts", []).append(fact)
+    else:
+        # the loop cannot run at all on this path: the entry state is the exit state
+        for name, t in tensors.items():
+            t.fn = entry[name]
+        info.deltas, info.i = None, i
+    info.finished = True
+
+
+_UMUL = z3.Function("umul", z3.RealSort(), z3.RealSort(), z3.RealSort())
+_UDIV = z3.Function("udiv", z3.RealSort(), z3.RealSort(), z3.RealSort())
+
+
+def abstract_nl(term, cache=None):
+    """nonlinear products and quotients of reals become applications of uninterpreted functions: what is proved about the
+    abstraction holds for the arithmetic (fewer facts are available to the solver), and equal arguments give equal values
+    by congruence - enough for obligations that only move values around"""
+    cache = {} if cache is None else cache
+
+    def isnum(t):
+        return z3.is_rational_value(t) or z3.is_int_value(t) or (z3.is_app(t) and t.decl().kind() == z3.Z3_OP_TO_REAL and z3.is_int_value(t.arg(0)))
+
+    def go(t):
+        key = t.get_id()
+        if key in cache:
+            return cache[key]
+        if not z3.is_app(t) or t.num_args() == 0:
+            cache[key] = t
+            return t
+        ch = [go(x) for x in t.children()]
+        k = t.decl().kind()
+        if k == z3.Z3_OP_MUL and z3.is_real(t):
+            nums = [x for x in ch if isnum(x)]
+            oth = [x for x in ch if not isnum(x)]
+            if len(oth) <= 1:
+                r = t.decl()(*ch) if len(ch) > 1 else ch[0]
+            else:
+                r = oth[0]
+                for x in oth[1:]:
+                    r = _UMUL(r, x)
+                for x in nums:
+                    r = x * r
+        elif k == z3.Z3_OP_DIV and z3.is_real(t) and not isnum(ch[1]):
+            r = _UDIV(ch[0], ch[1])
+        elif k == z3.Z3_OP_POWER:
+            r = z3.Function("upow2", z3.RealSort(), z3.RealSort(), z3.RealSort())(ch[0], ch[1])
+        else:
+            r = _rebuild(t, ch)
+        cache[key] = r
+        return r
+    return go(term)
+
+
+def _rebuild(t, ch):
+    k = t.decl().kind()
+    if k == z3.Z3_OP_AND:
+        return z3.And(*ch)
+    if k == z3.Z3_OP_OR:
+        return z3.Or(*ch)
+    if k == z3.Z3_OP_ADD:
+        return z3.Sum(ch)
+    if k == z3.Z3_OP_MUL:
+        return z3.Product(ch)
+    if k == z3.Z3_OP_DISTINCT:
+        return z3.Distinct(*ch)
+    if k == z3.Z3_OP_SUB and len(ch) > 2:
+        r = ch[0]
+        for x in ch[1:]:
+            r = r - x
+        return r
+    return t.decl()(*ch)
+
+
+def _prove_from(c, name, formula, pc, kind="invariant"):
+    """structural obligations: first with products / quotients abstracted (a proof of the abstraction is a proof; a
+    counter-model of the abstraction is not a counter-example), then as they are"""
+    from .core import discharge, Obligation
+    import time as _t
+    cache = {}
+    t0 = _t.time()
+    st_, be, det = discharge([abstract_nl(p, cache) for p in pc], abstract_nl(formula, cache))
+    if st_ == "proved":
+        c.obligations.append(Obligation(name, "proved", be + "(products abstracted)", _t.time() - t0, "", path=list(c.trace),
+                                        formula=str(formula)[:300], kind=kind))
+        return True
+    return _prove_from0(c, name, formula, pc, kind)
+
+
+def _prove_from0(c, name, formula, pc, kind="invariant"):
+    saved = c.pc
+    try:
+        c.pc = pc
+        return c.prove(name, formula, kind=kind)
+    finally:
+        c.pc = saved
+
+
+def unfinished_cuts():
+    return [i.lid for i in ctx().ghost.get("lam_cuts", []) if not i.finished]
+
+
+class Undecided(OutOfSubset):
+    pass
+
+
+_INT_ONLY = {}
+
+
+def _int_only(t):
+    """no real-valued subterm (integer arithmetic and comparisons, boolean structure)"""
+    key = t.get_id()
+    if key in _INT_ONLY:
+        return _INT_ONLY[key]
+    if z3.is_real(t):
+        r = False
+    elif z3.is_app(t) and t.decl().kind() == z3.Z3_OP_UNINTERPRETED and t.num_args() > 0:
+        r = False
+    else:
+        r = all(_int_only(ch) for ch in t.children())
+    if len(_INT_ONLY) > 200000:
+        _INT_ONLY.clear()
+    _INT_ONLY[key] = r
+    return r
+
+
+def canonize(term, funcs, points, hyps):
+    """replace every application f(t, consts...) of the listed uninterpreted functions by a real constant named after the
+    canonical point p with  hyps |= t == p  (each decided by a small integer query); NRA then sees plain reals"""
+    s = z3.Solver()
+    s.set("timeout", 5000)
+    for h in hyps:
+        s.add(h)
+    cache, which = {}, {}
+
+    def point_of(t):
+        key = t.get_id()
+        if key in which:
+            return which[key]
+        t_s = z3.simplify(t)
+        for p, label in points:
+            if z3.eq(t_s, z3.simplify(p)):
+                which[key] = label
+                return label
+        for p, label in points:
+            s.push()
+            s.add(t != p)
+            r = s.check()
+            s.pop()
+            if r == z3.unsat:
+                which[key] = label
+                return label
+        raise Undecided("LAM canonize: index %s is none of the canonical points" % str(t_s)[:80])
+
+    def go(t):
+        key = t.get_id()
+        if key in cache:
+            return cache[key]
+        if z3.is_bool(t) and z3.is_app(t) and t.num_args() > 0 and _int_only(t):
+            # a condition on positions only: decided by the integer hypotheses where they decide it
+            s.push()
+            s.add(z3.Not(t))
+            r1 = s.check()
+            s.pop()
+            if r1 == z3.unsat:
+                cache[key] = z3.BoolVal(True)
+                return cache[key]
+            s.push()
+            s.add(t)
+            r2 = s.check()
+            s.pop()
+            if r2 == z3.unsat:
+                cache[key] = z3.BoolVal(False)
+                return cache[key]
+        if z3.is_app(t) and t.decl().kind() == z3.Z3_OP_ITE:
+            cond = t.arg(0)
+            s.push()
+            s.add(z3.Not(cond))
+            r1 = s.check()
+            s.pop()
+            if r1 == z3.unsat:
+                r = go(t.arg(1))
+                cache[key] = r
+                return r
+            s.push()
+            s.add(cond)
+            r2 = s.check()
+            s.pop()
+            if r2 == z3.unsat:
+                r = go(t.arg(2))
+                cache[key] = r
+                return r
+        if z3.is_app(t) and t.num_args() > 0:
+            nm = t.decl().name()
+            if nm in funcs and t.decl().eq(funcs[nm]):
+                ch = t.children()
+                label = point_of(ch[0])
+                rest = "".join("_%s" % z3.simplify(x) for x in ch[1:])
+                r = z3.Real("%s@%s%s" % (nm, label, rest))
+            else:
+                ch = [go(x) for x in t.children()]
+                r = _rebuild(t, ch)
+        else:
+            r = t
+        cache[key] = r
+        return r
+    return go(term)
+
+
+class _Linalg(object):
+    solve = staticmethod(solve)
+
+
 def make_torch():
     t = types.SimpleNamespace()
     t.Tensor = LT
     t.numel, t.searchsorted, t.clamp, t.gather = numel, searchsorted, clamp, gather
     t.float64, t.int64 = float64, int64
+    t.zeros, t.zeros_like, t.tensor, t.cat = zeros, zeros_like, tensor, cat
+    t.sum, t.matmul, t.einsum = sum_, matmul, einsum
+    t.linalg = _Linalg()
     return t
